@@ -142,7 +142,7 @@ theorem inv3_reset (s : St) (k : Nat) (r : Rec) (h : Inv3 s) (hk : s.key k = som
     Inv3 (newRec (cancelOpt s r.gen r.cancelOf) k r.gen) := by
   refine ⟨kinv_newRec _ k r (kinv_cancelOpt s r.gen r.cancelOf h.k) (by simpa using hk), ?_, ?_⟩
   · let s1 := cancelOpt s r.gen r.cancelOf
-    let r' : Rec := { id := s1.nrec, gen := r.gen, data := s1.ctors k + 1, hasFn := !s1.nilNext.contains k }
+    let r' : Rec := { id := s1.nrec, gen := r.gen, data := s1.ctors k + 1, hasFn := !s1.nilNext.contains k, born := s1.epoch }
     have := own_replace s k r (some r') h.own hk
     exact own_congr (s := setRec s1 k (some r')) rfl rfl this
   · exact ownc_congr (s := cancelOpt s r.gen r.cancelOf) rfl rfl (ownc_cancelOpt s r.gen r.cancelOf h.ownc)
